@@ -175,9 +175,14 @@ fn write_generated_file(
 
     // If the generated file already exists on disk, and is identical to what we want to write,
     // we don't overwrite the file, and instead return immediately.
-    if let Ok(current_contents) = std::fs::read(&generated_file_path) {
-        if current_contents == generated_file_bytes {
-            return Ok(());
+    // Only a regular file of the same length can be identical; anything else isn't read (reading a device may never end).
+    let could_be_identical = std::fs::metadata(&generated_file_path)
+        .is_ok_and(|metadata| metadata.is_file() && metadata.len() == generated_file_bytes.len() as u64);
+    if could_be_identical {
+        if let Ok(current_contents) = std::fs::read(&generated_file_path) {
+            if current_contents == generated_file_bytes {
+                return Ok(());
+            }
         }
     }
 
